@@ -31,6 +31,7 @@ type RunResult struct {
 	Trace      []string       `json:"trace,omitempty"`
 	WallUS     int64          `json:"wall_us"`
 	Inconclusive int          `json:"inconclusive,omitempty"`
+	Wedged     bool           `json:"wedged,omitempty"`
 }
 
 // Task is an operation issued on its own goroutine so that a blocking (deadlocking)
@@ -121,6 +122,12 @@ func (w *World) exec(i int, s *Step) {
 		}
 	case "announce", "withdraw":
 		if p == nil || p.conn == nil {
+			return
+		}
+		if !p.Established() {
+			// a well-behaved peer sends UPDATEs only in Established (messages in other states are
+			// sent with "raw" steps by the properties that are about them)
+			e.probe("update_not_sent_peer_not_established")
 			return
 		}
 		raw := w.encodeUpdate(p, s)
@@ -334,6 +341,10 @@ func runInBubble(t *testing.T, plan *Plan, opt RunOpts, res *RunResult) {
 			env.Sim.RunFor(us(s.GapUS))
 		}
 		w.exec(i, s)
+		if w.checkWedged() {
+			res.Wedged = true
+			return
+		}
 		for _, o := range w.Oracles {
 			o.AfterStep(w, i, s)
 		}
@@ -345,6 +356,10 @@ func runInBubble(t *testing.T, plan *Plan, opt RunOpts, res *RunResult) {
 	env.mu.Unlock()
 	if plan.TailUS > 0 {
 		env.Sim.RunFor(us(plan.TailUS))
+	}
+	if w.checkWedged() {
+		res.Wedged = true
+		return
 	}
 	for _, o := range w.Oracles {
 		o.Final(w)
@@ -391,4 +406,57 @@ func shapeHash(w *World) string {
 	}
 	fmt.Fprintf(h, "w%d", len(w.Env.writes))
 	return fmt.Sprintf("%016x", h.Sum64())
+}
+
+// checkWedged decides at a quiescent point whether the DUT is wedged: an API operation
+// that has not returned, or a goroutine parked on a simulator mutex, although nothing is
+// runnable. Neither needs time to pass, so at quiescence both mean "blocked forever" unless
+// a timer releases them; a grace period of simulated time well above every protocol timer
+// is granted first. A wedged DUT must not be touched by the driver any more (the driver
+// would block on the same locks), so the run ends here. The finding belongs to C25.
+func (w *World) checkWedged() bool {
+	stuck := func() bool { return len(w.PendingTasks()) > 0 || len(w.Env.Sim.BlockedOnLocks()) > 0 }
+	if !stuck() {
+		return false
+	}
+	w.Env.Sim.RunFor(600 * time.Second)
+	if !stuck() {
+		w.Env.probe("slow_operation_completed_after_time_passed")
+		return false
+	}
+	var sb strings.Builder
+	for _, t := range w.PendingTasks() {
+		fmt.Fprintf(&sb, "operation %s (issued at step %d) has not returned after 600 simulated seconds of quiescence\n", t.Name, t.Step)
+	}
+	cyc := w.Env.Sim.LockCycle()
+	as := "operation_never_returns"
+	if len(cyc) > 0 {
+		as = "lock_cycle"
+		fmt.Fprintf(&sb, "waits-for cycle between %d goroutines:\n", len(cyc))
+		for _, b := range cyc {
+			fmt.Fprintf(&sb, "-- goroutine %d waits (write=%v) for a lock held by %v at:\n%s", b.G, b.Write, b.Owners, indent(firstFrames(b.Stack, 8)))
+		}
+	} else {
+		for _, b := range w.Env.Sim.BlockedOnLocks() {
+			fmt.Fprintf(&sb, "-- goroutine %d parked on a lock held by %v at:\n%s", b.G, b.Owners, indent(firstFrames(b.Stack, 8)))
+		}
+		if len(w.PendingTasks()) == 0 {
+			as = "lock_wait_forever"
+		}
+	}
+	w.Env.Violate("C25", as, "%s", sb.String())
+	w.Env.probe("wedged")
+	return true
+}
+
+func firstFrames(stack string, n int) string {
+	ls := strings.Split(strings.TrimSpace(stack), "\n")
+	if len(ls) > n {
+		ls = ls[:n]
+	}
+	return strings.Join(ls, "\n") + "\n"
+}
+
+func indent(s string) string {
+	return "     " + strings.ReplaceAll(strings.TrimRight(s, "\n"), "\n", "\n     ") + "\n"
 }
